@@ -251,7 +251,7 @@ impl Property for C17 {
     }
 
     fn plan(&self, tier: Tier) -> Vec<Stage<Case>> {
-        vec![Stage::random("random", tier.pick(200_000, 4_000_000), case_strategy)]
+        vec![Stage::random("random", tier.pick(1_000_000, 25_000_000), case_strategy)]
     }
 
     fn rule(&self) -> String {
@@ -259,7 +259,7 @@ impl Property for C17 {
     }
 
     fn floors(&self, tier: Tier) -> Vec<Floor> {
-        let n = tier.pick(200_000u64, 4_000_000);
+        let n = tier.pick(1_000_000u64, 25_000_000);
         vec![
             Floor { label: "path:fast (request == stored list)", min: n * 15 / 100 },
             Floor { label: "path:lookup", min: n * 15 / 100 },
